@@ -84,15 +84,35 @@ theorem blkName_first (inc : Bool) (st : BlkSt) (nm : Bytes) (h0 : (st.nblocks =
                                        names := st.names ++ [nm],
                                        nseq := if inc then st.nseq + 1 else st.nseq } := by
   have h1 : ¬ (st.idx ≥ expandAlloc st.idx st.sqalloc) := by omega
-  unfold blkName
-  simp only [h0, if_true, h1, if_false, hc]
+  have hz : nm.contains 0 = false := by
+    rw [Bool.eq_false_iff]
+    intro hcon
+    have hm : (0 : UInt8) ∈ nm := by simpa using hcon
+    rw [← hc] at hm
+    unfold cstr at hm
+    have hall : ∀ (l : Bytes) (x : UInt8), x ∈ l.takeWhile (· != 0) → x ≠ 0 := by
+      intro l
+      induction l with
+      | nil => intro x hx; simp at hx
+      | cons c t ih =>
+        intro x hx
+        by_cases hc0 : c = 0
+        · subst hc0; simp [List.takeWhile] at hx
+        · have : (c != 0) = true := by simpa using hc0
+          simp only [List.takeWhile, this] at hx
+          rcases List.mem_cons.mp hx with e | e
+          · subst e; exact hc0
+          · exact ih x e
+    exact hall nm 0 hm rfl
+  unfold blkName blkNameCore
+  simp only [h0, hz, Bool.and_false, Bool.false_eq_true, if_true, h1, if_false, hc]
 
 theorem blkName_later (inc : Bool) (st : BlkSt) (nm : Bytes) (h0 : (st.nblocks == 0) = false)
     (hidx : st.idx < st.nseq) (hn : st.names[st.idx]? = some nm) :
     blkName inc st nm = .inl st := by
   have h1 : ¬ (st.idx ≥ st.nseq) := by omega
-  unfold blkName
-  simp only [h0, Bool.false_eq_true, if_false, h1, hn, memstrcmp, beq_self_eq_true, Bool.not_true]
+  unfold blkName blkNameCore
+  simp only [h0, Bool.false_and, Bool.false_eq_true, if_false, h1, hn, memstrcmp, beq_self_eq_true, Bool.not_true]
 
 theorem blkAppend_ok (cfg : Cfg) (st : BlkSt) (seq : Bytes) (cur : Option Bytes) (codes : Bytes)
     (hrow : st.rows[st.idx]? = some cur) (hlen : rowLen cfg.digital cur = st.alen)
